@@ -2,7 +2,7 @@
    of the same name without _all (both in Props/C13.v).  Kept in a file of their own because Print Assumptions walks the
    whole development once per theorem; checked on the thorough tier.  Never weaken a statement here. *)
 From AV Require Import Base.Util Model.Consumer Proofs.ConsumerBase Proofs.ConsumerStop Proofs.ConsumerInv Proofs.ConsumerShut
-  Proofs.ConsumerRun Proofs.ConsumerNotStarted Proofs.ConsumerFuelEnoughLoop Proofs.ConsumerFuelEnoughRun.
+  Proofs.ConsumerRun Proofs.ConsumerNotStarted Proofs.ConsumerFuelEnoughLoop Proofs.ConsumerFuelEnoughRun Proofs.ConsumerShutInvNC.
 Open Scope Z_scope.
 
 Theorem C13_reachable_invariant_all : forall n0 c buf evs, cfg_ok c = true ->
@@ -25,3 +25,7 @@ Theorem C13_not_started_idle_all : forall n0 c buf evs, cfg_ok c = true ->
 Proof. exact not_started_idle_all. Qed.
 Print Assumptions C13_not_started_idle_all.
 
+Theorem C13_not_started_commit_idle_all : forall n0 c buf evs, cfg_ok c = true ->
+  exists fuel0, forall fuel, (fuel0 <= fuel)%nat -> commit_idle_run (run_steps fuel (init c n0 buf) evs) = true.
+Proof. exact commit_idle_all. Qed.
+Print Assumptions C13_not_started_commit_idle_all.
